@@ -290,8 +290,8 @@ func runC19(c *core.Ctx, o Options) {
 		s.checkSaveHandler("H3")
 		// no other function registers an all-types outgoing handler before the constructor's: registrations elsewhere happen on an existing session
 		for _, r := range s.regs {
-			if !r.In && r.Key == "ALL" && r.Parent.Name() != "setStorageCallbacks" {
-				c.Check(r.Parent.Name() == "start", "H3", r.Parent.Name(), "later all-types outgoing registration", r.Site.Pos(), "registered by start() at logon, after construction", "an all-types outgoing handler is registered in "+r.Parent.Name()+"; if it runs before the save handler a message can be refused or sent unsaved")
+			if !r.In && r.Key == "ALL" && an.NameOf(r.Parent) != "setStorageCallbacks" {
+				c.Check(an.NameOf(r.Parent) == "start", "H3", an.NameOf(r.Parent), "later all-types outgoing registration", r.Site.Pos(), "registered by start() at logon, after construction", "an all-types outgoing handler is registered in "+an.NameOf(r.Parent)+"; if it runs before the save handler a message can be refused or sent unsaved")
 			}
 		}
 	}
@@ -498,7 +498,7 @@ func checkPoolGrowOnly(c *core.Ctx, rule string) {
 						}
 					}
 				}
-				c.Check(ok, rule, fn.Name(), "the handler list of a type only grows at its end", x.Pos(), "handlers[k] = append(handlers[k], h)",
+				c.Check(ok, rule, an.NameOf(fn), "the handler list of a type only grows at its end", x.Pos(), "handlers[k] = append(handlers[k], h)",
 					"handlers["+an.Render(x.Key)+"] is set to "+an.Render(x.Value)+": registered handlers are removed, moved or replaced — the session's own handlers (store, timer refresh) live in the same lists and are identified only by position")
 			case *ssa.Call:
 				b, isB := x.Call.Value.(*ssa.Builtin)
@@ -530,7 +530,7 @@ func checkPoolGrowOnly(c *core.Ctx, rule string) {
 						ok = false
 					}
 				}
-				c.Check(ok && np > 0, rule, fn.Name(), "only an empty handler list is deleted", x.Pos(), "len(handlers[k]) == 0 ⇒ delete", "a handler list is deleted without having been found empty")
+				c.Check(ok && np > 0, rule, an.NameOf(fn), "only an empty handler list is deleted", x.Pos(), "len(handlers[k]) == 0 ⇒ delete", "a handler list is deleted without having been found empty")
 			}
 		})
 	}
